@@ -37,6 +37,7 @@ type c20Item struct {
 }
 
 type c20Query struct {
+	Twice  bool      `json:"twice,omitempty"` // Exec is called a second time on the same Query
 	Items  []c20Item `json:"items"`
 	WhereK int       `json:"where_k"` // -1 none; else  a >= WhereK
 	Dual   bool      `json:"dual"`
@@ -45,8 +46,9 @@ type c20Query struct {
 
 type c20Expect struct {
 	Queries []c20Query       `json:"queries"`
-	Rows    [][]any          `json:"rows"` // expected rows per query
-	Vars    []map[string]any `json:"vars"` // expected caller map after each query
+	Rows    [][]any          `json:"rows"`  // expected rows per query
+	Rows2   [][]any          `json:"rows2"` // expected rows of the second Exec (nil: not executed twice)
+	Vars    []map[string]any `json:"vars"`  // expected caller map after each query
 	Init    map[string]any   `json:"init"`
 }
 
@@ -77,6 +79,16 @@ func (it c20Item) sql() string {
 		return fmt.Sprintf("SPINASYNC.fx(%d, a)", it.Site)
 	case "getsub":
 		return fmt.Sprintf("(SELECT GETVAR(%s) AS g FROM dual) AS %s", it.ksql(), it.Alias)
+	case "setsub":
+		// a nested select is a query object of its own writing the same variable context
+		v := "a"
+		if it.VKind == "num" {
+			v = trimFloat(it.VNum)
+		}
+		if it.Key2 != "" {
+			return fmt.Sprintf("(SELECT SETVAR(%s, %s), GETVAR(%s) AS g2 FROM dual) AS %s", it.ksql(), v, it.k2sql(), it.Alias)
+		}
+		return fmt.Sprintf("(SELECT SETVAR(%s, %s) FROM dual) AS %s", it.ksql(), v, it.Alias)
 	case "setv_async":
 		return fmt.Sprintf("ASYNC.setv(%d, 'zz', id) AS %s", it.Site, it.Alias)
 	case "set":
@@ -169,7 +181,7 @@ func genC20(t *rapid.T) *Bundle {
 		ni := rapid.IntRange(1, 7).Draw(t, "nitems")
 		usedCols := map[string]bool{}
 		for i := 0; i < ni; i++ {
-			kinds := []string{"set", "get", "set", "get", "col", "async", "spin", "getsub", "setv_async", "case_set", "if_get", "await_get"}
+			kinds := []string{"set", "get", "set", "get", "col", "async", "spin", "getsub", "setv_async", "case_set", "if_get", "await_get", "setsub"}
 			if q.Dual {
 				kinds = []string{"set", "get"}
 			}
@@ -204,6 +216,16 @@ func genC20(t *rapid.T) *Bundle {
 			case "getsub":
 				it.Key, it.KeySQL = drawKey("key")
 				it.Alias = fmt.Sprintf("s%d", i)
+			case "setsub":
+				it.Key, it.KeySQL = drawKey("key")
+				it.Alias = fmt.Sprintf("t%d", i)
+				it.VKind = rapid.SampledFrom([]string{"num", "col"}).Draw(t, "setsub_v")
+				if it.VKind == "num" {
+					it.VNum = float64(rapid.SampledFrom([]int{5, 6, -1}).Draw(t, "setsub_num"))
+				}
+				if rapid.Bool().Draw(t, "setsub_reads") {
+					it.Key2, it.Key2SQL = drawKey("key2")
+				}
 			case "setv_async":
 				// user code on an ASYNC goroutine writes another key ('zz') of the same variable context
 				site++
@@ -255,79 +277,107 @@ func genC20(t *rapid.T) *Bundle {
 		if q.Dual {
 			src = []any{map[string]any{}}
 		}
-		rows := []any{}
-		for _, r := range src {
-			row := r.(map[string]any)
-			if q.WhereK >= 0 && row["a"].(float64) < float64(q.WhereK) {
-				continue
-			}
-			out := map[string]any{}
-			for _, it := range q.Items {
-				switch it.Kind {
-				case "col":
-					out[it.Col] = row[it.Col]
-				case "get":
-					out[it.Alias] = model[it.Key] // nil when never set
-				case "async":
-					out[it.Alias] = stubValue("fx", it.Site, row["a"])
-				case "await_get":
-					out[it.Alias] = "$AWAIT:" + it.Key
-				case "getsub":
-					out[it.Alias] = map[string]any{"g": model[it.Key]}
-				case "case_set":
-					if row["a"].(float64) >= float64(it.CaseK) {
-						model[it.Key] = row["a"]
-					} else {
-						model[it.Key2] = row["id"]
-					}
-				case "if_get":
-					if row["a"].(float64) >= float64(it.CaseK) {
-						out[it.Alias] = model[it.Key]
-					} else {
-						out[it.Alias] = model[it.Key2]
-					}
-				case "setv_async":
-					out[it.Alias] = nil
-				case "set":
-					var v any
-					switch it.VKind {
-					case "col":
-						v = row[it.VCol]
-					case "num":
-						v = it.VNum
-					case "str":
-						v = it.VStr
-					case "null":
-						v = nil
-					case "sum":
-						v = row["a"].(float64) + row["id"].(float64)
-					case "getvar":
-						v = model[it.VKey]
-					case "bool":
-						v = it.VNum == 1
-					}
-					model[it.Key] = v
-				}
-			}
-			rows = append(rows, out)
+		q.Twice = rapid.IntRange(0, 3).Draw(t, "exec_twice") == 0
+		passes := 1
+		if q.Twice {
+			passes = 2
 		}
-		// awaited reads see the state after the last row of this query
-		for _, r := range rows {
-			out := r.(map[string]any)
-			for k, v := range out {
-				if sv, ok := v.(string); ok && strings.HasPrefix(sv, "$AWAIT:") {
-					out[k] = model[strings.TrimPrefix(sv, "$AWAIT:")]
+		var rows, rows1 []any
+		for pass := 0; pass < passes; pass++ {
+			rows1 = rows
+			rows = []any{}
+			for _, r := range src {
+				row := r.(map[string]any)
+				if q.WhereK >= 0 && row["a"].(float64) < float64(q.WhereK) {
+					continue
+				}
+				out := map[string]any{}
+				for _, it := range q.Items {
+					switch it.Kind {
+					case "col":
+						out[it.Col] = row[it.Col]
+					case "get":
+						out[it.Alias] = model[it.Key] // nil when never set
+					case "async":
+						out[it.Alias] = stubValue("fx", it.Site, row["a"])
+					case "await_get":
+						out[it.Alias] = "$AWAIT:" + it.Key
+					case "getsub":
+						out[it.Alias] = map[string]any{"g": model[it.Key]}
+					case "case_set":
+						if row["a"].(float64) >= float64(it.CaseK) {
+							model[it.Key] = row["a"]
+						} else {
+							model[it.Key2] = row["id"]
+						}
+					case "if_get":
+						if row["a"].(float64) >= float64(it.CaseK) {
+							out[it.Alias] = model[it.Key]
+						} else {
+							out[it.Alias] = model[it.Key2]
+						}
+					case "setsub":
+						if it.VKind == "num" {
+							model[it.Key] = it.VNum
+						} else {
+							model[it.Key] = row["a"]
+						}
+						if it.Key2 != "" {
+							out[it.Alias] = map[string]any{"g2": model[it.Key2]}
+						} else {
+							out[it.Alias] = map[string]any{}
+						}
+					case "setv_async":
+						out[it.Alias] = nil
+					case "set":
+						var v any
+						switch it.VKind {
+						case "col":
+							v = row[it.VCol]
+						case "num":
+							v = it.VNum
+						case "str":
+							v = it.VStr
+						case "null":
+							v = nil
+						case "sum":
+							v = row["a"].(float64) + row["id"].(float64)
+						case "getvar":
+							v = model[it.VKey]
+						case "bool":
+							v = it.VNum == 1
+						}
+						model[it.Key] = v
+					}
+				}
+				rows = append(rows, out)
+			}
+			// awaited reads see the state after the last row of this query
+			for _, r := range rows {
+				out := r.(map[string]any)
+				for k, v := range out {
+					if sv, ok := v.(string); ok && strings.HasPrefix(sv, "$AWAIT:") {
+						out[k] = model[strings.TrimPrefix(sv, "$AWAIT:")]
+					}
 				}
 			}
+		}
+		if !q.Twice {
+			rows1 = rows
 		}
 		snap := map[string]any{}
 		for k, v := range model {
 			snap[k] = v
 		}
 		exp.Queries = append(exp.Queries, q)
-		exp.Rows = append(exp.Rows, rows)
+		exp.Rows = append(exp.Rows, rows1)
+		if q.Twice {
+			exp.Rows2 = append(exp.Rows2, rows)
+		} else {
+			exp.Rows2 = append(exp.Rows2, nil)
+		}
 		exp.Vars = append(exp.Vars, snap)
-		ops = append(ops, casefmt.Op{Doc: 0, Vars: 0, Query: q.SQL})
+		ops = append(ops, casefmt.Op{Doc: 0, Vars: 0, Query: q.SQL, ExecTwice: q.Twice})
 	}
 	sim := drawSim(t, "")
 	c := casefmt.Case{Prop: "C20", Sim: sim, Docs: []json.RawMessage{rawDoc(map[string]any{"t": table})}, Vars: []map[string]any{init},
@@ -389,8 +439,21 @@ func evalC20(b *Bundle, r *Runner) []*Violation {
 			}
 			return []*Violation{mkViolation(b, cls, "", fmt.Sprintf("query %d of %d: %s\n history so far: %s\n model  %s\n engine %s", qi+1, len(exp.Queries), q, c20History(&exp, qi), canonText(want), compact(op.Rows)), o)}
 		}
-		if string(op.Rows) != string(op.RowsAfter) {
+		if string(op.Rows) != string(op.RowsAfter) && !exp.Queries[qi].Twice {
 			return []*Violation{mkViolation(b, "RESULT_CHANGED_AFTER_RETURN", "", q, o)}
+		}
+		if exp.Queries[qi].Twice {
+			want2 := exp.Rows2[qi]
+			if want2 == nil {
+				want2 = []any{}
+			}
+			if op.Exec2 != "ok" {
+				return []*Violation{mkViolation(b, "VAR_QUERY_FAILED", "second_exec", fmt.Sprintf("query %d %q: the second Exec on the same Query: %s", qi, q, op.Exec2), o)}
+			}
+			if !jsonEqual(normJSON(op.Rows2), want2) {
+				return []*Violation{mkViolation(b, "REGISTER_READ", "second_exec", fmt.Sprintf("query %d of %d, Exec called a second time on the same Query: %s\n history so far: %s\n model  %s\n engine %s", qi+1, len(exp.Queries), q, c20History(&exp, qi), canonText(want2), compact(op.Rows2)), o)}
+			}
+			r.Stats.probe("second_exec_on_same_query_compared")
 		}
 		wantVars := exp.Vars[qi]
 		gotVars := normJSON(op.VarsAfter)
